@@ -329,7 +329,11 @@ func (s *Sim) answer(r *Req, outcome string) {
 					notFound := outcome == "err:system.notFound" || outcome == "noresp"
 					if !s.loadedWhenAnswered(r, v) {
 						// the gateway ignores the answer to a re-fetch that arrives
-						// before the resource has been loaded
+						// before the resource has been loaded; a failure that arrives
+						// out of band (timeout) may come later, and the events dropped
+						// while the re-fetch was under way are then lost
+						s.refetchFailed[v] = true
+						s.sawDerived[v] = true
 					} else if notFound {
 						// the gateway turns a not-found re-fetch into a delete event
 						v.announce(&StreamEv{Kind: "delete", Derived: true, Via: r, EmitStep: s.Step, EmitCut: s.Cut}, true)
@@ -437,9 +441,11 @@ func (s *Sim) loadedWhenAnswered(r *Req, v *Variant) bool {
 
 func (s *Sim) markUnsure(r *Req) {
 	if res := s.W.Res[r.Name]; res != nil && res.V != nil {
-		if v := res.V[r.Query]; v != nil {
-			s.unsure[v] = true
-			s.sawDerived[v] = true
+		if n, ok := res.normalise(r.Query); ok {
+			if v := res.V[n]; v != nil {
+				s.unsure[v] = true
+				s.sawDerived[v] = true
+			}
 		}
 	}
 }
@@ -460,6 +466,15 @@ func (s *Sim) answerGet(r *Req) {
 	norm, ok := res.normalise(r.Query)
 	v := res.V[norm]
 	refetch := r.Rf == 2
+	if r.Rf == 3 && ok && v != nil && !v.Deleted {
+		// ignored by the gateway
+		p := `{"result":` + v.Actual.clone().serviceJSON()
+		if res.IsQuery {
+			p += `,"query":` + jstr(norm)
+		}
+		tr.enqueueReply(r, r.Name, []byte(p+"}}"), nil, nil)
+		return
+	}
 	if r.Rf == 1 {
 		s.markUnsure(r)
 		refetch = true
